@@ -251,6 +251,17 @@ pub fn run(ctx: &Ctx) -> i32 {
             plonk_subject(ctx, &a);
         }
     }
+    // no grinding: the pow witness is still a transcript component (any value is admissible, so
+    // it must keep steering the query indices)
+    {
+        let (prog, ivs) = &progs[3.min(progs.len() - 1)];
+        let mut c = floor_config(8);
+        c.fri_config.proof_of_work_bits = 0;
+        fix_security(&mut c);
+        if let Some(a) = make_accepted::<PC>(ctx, "random_access_exp@c04pow0", prog, &ivs[0], &c, ctx.seed + 4) {
+            plonk_subject(ctx, &a);
+        }
+    }
     crate::c04s::run_stark(ctx);
     ctx.finish(Finish {
         level: "model_checking",
